@@ -3,8 +3,8 @@
 //! * Poll control: the stop flag can be made to read true from the k-th time it is loaded, and
 //!   the number of loads is counted.
 //! * Forced schedules: named steps of the UCI input thread and of the search threads can be made
-//!   to happen in a prescribed total order, and every step is logged with a sequence number taken
-//!   under the same lock, after the step has taken effect.
+//!   to happen in a prescribed total order (`gate` before the step, `done` after it has taken
+//!   effect), and every step is logged with a sequence number taken under the same lock (`mark`).
 //!
 //! Without `TCHERAN_VERIF_SCHEDULE` / `TCHERAN_VERIF_TRACE` in the environment and without a
 //! configured countdown every entry point returns immediately.
@@ -94,8 +94,11 @@ pub fn gate(label: &str) {
     }
 }
 
-/// The step has taken effect: log it, advance the cursor if it was the scheduled step, wake waiters.
-pub fn done(label: &str) {
+/// Log the step with a sequence number taken under the scheduler's lock. Called at the step's
+/// linearization point: before an effect that enables other threads (spawn, flag raise, latch set,
+/// unlock, printing bestmove), after an effect that was enabled by another thread (lock acquired,
+/// wait returned).
+pub fn mark(label: &str) {
     let s = shared();
     let mut g = s.m.lock().unwrap();
     g.seq += 1;
@@ -104,6 +107,12 @@ pub fn done(label: &str) {
         let _ = writeln!(f, "{{\"seq\":{seq},\"ev\":\"{label}\"}}");
         let _ = f.flush();
     }
+}
+
+/// The step has taken effect: advance the cursor if it was the scheduled step, wake waiters.
+pub fn done(label: &str) {
+    let s = shared();
+    let mut g = s.m.lock().unwrap();
     if g.cursor < g.steps.len() && g.steps[g.cursor] == label {
         g.cursor += 1;
     }
